@@ -411,9 +411,9 @@ func c03History(c *fw.Ctx, k *fw.K, i int) {
 		}
 	}
 
-	var held [][]byte             // responses the attacker withheld
-	var heldAt []int              // exchange index where each was produced
-	var passed [][]byte           // responses delivered normally
+	var held [][]byte            // responses the attacker withheld
+	var heldAt []int             // exchange index where each was produced
+	var passed [][]byte          // responses delivered normally
 	nakedSince := map[int]bool{} // exchange -> terminal saw a naked response
 	var action string
 	var cur *c03Processed
